@@ -142,8 +142,10 @@ def naming_source(rnd, safe_members=False, safe_entities=False):
     hostile_members = rnd.random() < 0.15
     if safe_members or not hostile_members:
         m0, m1, m2 = 'lit_a', 'lit_b', 'lit_c'
-    if safe_entities and Top.lower() == Sub.lower():
-        Sub = Sub + '_sub'
+    import re as _re
+    _nrm = lambda n: _re.sub('_+', '_', n).strip('_').lower()      # noqa
+    if safe_entities and _nrm(Top) == _nrm(Sub):
+        Sub = Sub.strip('_') + '_sub'
     uf = set([Top, Sub, En])
     fsub, cfn, pfn, coro, helper, param = (pyname(rnd, uf) for _ in range(6))
     n = [anyname(rnd) for _ in range(6)]
@@ -217,24 +219,33 @@ def run_naming(case):
         cnt['naming_accepted'] += 1
         viol = vcheck_text(comp.text, cnt, f"naming seed {case['seed']}", reserved=extra or ())
         if viol:
-            # differential classification: do the findings disappear when only the enumeration literals / only the
-            # case-colliding entity names are replaced by harmless ones?
-            for tag, kw2 in (('enum-literal-emitted-verbatim', {'safe_members': True}),
-                             ('entity-names-differ-only-in-case', {'safe_entities': True})):
-                src2, Top2, extra2 = naming_source(random.Random(case['seed']), **kw2)
+            # differential classification: which findings vanish when only the enumeration literals / only the
+            # case-colliding entity names are replaced by harmless ones?  (stages accumulate)
+            key = lambda v: (v['mech'], v['detail'].split(' ; ')[0])      # noqa
+            flags = {}
+            tagged = []
+            for tag, flag in (('enum-literal-emitted-verbatim', 'safe_members'), ('entity-names-differ-only-in-case', 'safe_entities')):
+                trial = dict(flags)
+                trial[flag] = True
+                src2, Top2, extra2 = naming_source(random.Random(case['seed']), **trial)
                 if src2 == src:
                     continue
                 mod2 = load_source(src2, 'c06')
                 try:
                     comp2 = compile_top(getattr(mod2, Top2), **kw)
-                    v2 = vcheck_text(comp2.text, Counter(), '', reserved=extra or ())
+                    v2 = vcheck_text(comp2.text, Counter(), f"naming seed {case['seed']}", reserved=extra or ())
                 except Rejected:
                     v2 = None
                 finally:
                     unload(mod2)
-                if v2 == []:
-                    viol = [violation(tag, f"{v['mech']}: {v['detail']}", vhdl=v.get('vhdl')) for v in viol[:1]]
-                    break
+                if v2 is None:
+                    continue
+                after = {key(v) for v in v2}
+                gone = [v for v in viol if key(v) not in after]
+                if gone:
+                    tagged.append(violation(tag, f"{gone[0]['mech']}: {gone[0]['detail']}", vhdl=gone[0].get('vhdl')))
+                    viol, src, flags = v2, src2, trial
+            viol = tagged + viol
         for v in viol:
             v['source'] = src
         sample = {'seed': case['seed'], 'source_head': src[300:1100]} if case['seed'] % 211 == 0 else None
